@@ -140,7 +140,95 @@ class Ctx:
         t0 = Timer()
         r = implrun.cli_map(self.bins[key], runs, timeout=timeout, workers=workers or implrun.NCPU)
         log("   cli: %d runs in %.1fs" % (len(runs), t0.s()))
+        if not release:
+            rec = self.__dict__.setdefault("_cli_recorded", [])
+            for rn, x in zip(runs, r):
+                a = rn["args"]
+                if a and a[0] != "new" and x.cls in ("ok", "error") and not (rn.get("env") or {}).get("LD_PRELOAD") \
+                        and len(rn.get("stdin") or b"") < 200000 and not rn.get("cwd") and len(rec) < 4000:
+                    rn2 = self._snapshot_files(rn)
+                    if rn2 is not None:
+                        rec.append((rn2, x))
         return r
+
+    def _snapshot_files(self, rn):
+        """input files of a recorded run are usually deleted by the generator before the ambient check runs: keep a copy"""
+        import shutil
+        import tempfile
+        from common import CACHE
+        args = []
+        for a in rn["args"]:
+            if a.startswith("/") and not a.startswith("/dev/") and os.path.exists(a):
+                if not os.path.isfile(a) or os.path.getsize(a) > (1 << 20):
+                    return None
+                snap = self.__dict__.setdefault("_snapdir", None) or tempfile.mkdtemp(prefix="snap-", dir=CACHE)
+                self._snapdir = snap
+                cache = self.__dict__.setdefault("_snapmap", {})
+                if a not in cache:
+                    cache[a] = os.path.join(snap, "f%d" % len(cache))
+                    shutil.copyfile(a, cache[a])
+                args.append(cache[a])
+            elif a.startswith("/dev/"):
+                return None
+            else:
+                args.append(a)
+        return dict(rn, args=args)
+
+    def auto_ambient_check(self, sample=120):
+        """Generic check, run after every generator: what a command prints is a function of its arguments, its input and the four
+        documented environment variables (MNEMONIC, PASSWORD, ACCOUNT_INDEX, HD_PATH).  A sample of the CLI runs made so far is
+        repeated (a) with an environment variable set for EVERY long option name the binary's --help shows (UPPER_SNAKE_CASE, and
+        with an HDWALLET_ prefix) plus a few generic names, (b) from a working directory that contains files named after the
+        command's arguments; exit class and stdout must be unchanged."""
+        rec = self.__dict__.get("_cli_recorded", [])
+        if not rec or "cli" not in self.bins:
+            return
+        import shutil
+        import tempfile
+        from common import CACHE
+        from gen.util import short
+        names = implrun.option_names(self.bins["cli"])
+        documented = {"MNEMONIC", "PASSWORD", "ACCOUNT_INDEX", "HD_PATH"}
+        envnames = sorted(set(n.upper().replace("-", "_") for n in names) | {"CHAIN_ID", "SIGNATURE", "DATA", "INPUT", "BYTES", "PREFIX", "THREADS", "OUTPUT", "FORMAT"})
+        envnames = [n for n in envnames if n not in documented]
+        picks = self.rng.sample(rec, min(sample, len(rec)))
+        tmp = tempfile.mkdtemp(prefix="ambient-", dir=CACHE)
+        try:
+            runs, meta = [], []
+            for i, (rn, x) in enumerate(picks):
+                for label, val in (("true", "true"), ("5", "5")):
+                    e = dict(rn.get("env") or {})
+                    for n in envnames:
+                        e.setdefault(n, val)
+                        e.setdefault("HDWALLET_" + n, val)
+                    runs.append(dict(rn, env=e))
+                    meta.append((rn, x, "environment variables named after options = " + label))
+                d = os.path.join(tmp, "d%d" % i)
+                os.makedirs(d)
+                made = []
+                for a in rn["args"]:
+                    for cand in {a, a.split("=", 1)[-1]}:
+                        if cand and cand != "-" and "/" not in cand and "\x00" not in cand and len(cand.encode("utf8", "replace")) < 200 and cand not in (".", ".."):
+                            try:
+                                with open(os.path.join(d, cand), "wb") as fh:
+                                    fh.write(b"0x" + b"11" * 32 + b"\n")
+                                made.append(cand)
+                            except OSError:
+                                pass
+                if made:
+                    runs.append(dict(rn, cwd=d))
+                    meta.append((rn, x, "working directory containing files named like the arguments"))
+            res = implrun.cli_map(self.bins["cli"], runs, timeout=60)
+            for (rn, x, how), r in zip(meta, res):
+                self.count("ambient-independence")
+                if r.cls != x.cls or r.stdout != x.stdout:
+                    self.violation("output-depends-on-ambient-state", dict(op="hdwallet " + " ".join(short(a, 80) for a in rn["args"]), ambient=how,
+                                                                          stdin=short(rn.get("stdin") or b"", 60)),
+                                   dict(exit=x.cls, stdout=short(x.stdout, 120)), dict(exit=r.cls, stdout=short(r.stdout, 120), stderr=r.stderr[-200:].decode("utf8", "replace")))
+        finally:
+            shutil.rmtree(tmp, ignore_errors=True)
+            if self.__dict__.get("_snapdir"):
+                shutil.rmtree(self._snapdir, ignore_errors=True)
 
     # ---- bookkeeping ----
     def count(self, cls, n=1):
@@ -245,6 +333,7 @@ def main():
         else:
             mod.run(ctx)
             ctx.auto_history_check()
+            ctx.auto_ambient_check()
     except Exception:
         tb = traceback.format_exc()
         log(tb)
